@@ -131,7 +131,7 @@ X(z) == <<1, z>>
 Plain(id, dm, cd) == [id |-> id, kind |-> 0, dom |-> dm, cod |-> cd, dg |-> 0]
 AdjPairs == { p \in ((0 - ZMax)..ZMax) \X ((0 - ZMax)..ZMax) : p[2] = p[1] + 1 \/ p[1] = p[2] + 1 }
 Shapes ==    { Plain(1, <<X(0)>>, <<X(0)>>), Plain(2, <<>>, <<X(0)>>), Plain(3, <<X(1)>>, <<X(1)>>),
-               Plain(4, <<X(0), X(0)>>, <<X(0)>>), Plain(5, <<X(0)>>, <<>>) }
+               Plain(4, <<X(0), X(0)>>, <<X(0)>>), Plain(5, <<X(0)>>, <<>>), Plain(6, <<>>, <<>>) }
        \cup  { [id |-> 0, kind |-> 2, dom |-> <<X(p[1]), X(p[2])>>, cod |-> <<>>, dg |-> 0] : p \in AdjPairs }
        \cup  { [id |-> 0, kind |-> 3, dom |-> <<>>, cod |-> <<X(p[1]), X(p[2])>>, dg |-> 0] : p \in AdjPairs }
 Doms == { <<>>, <<X(0)>>, <<X(1)>>, <<X(-1)>> }
